@@ -153,10 +153,13 @@ def findlabels_pre_310(code, opc):
 NO_LINE_NUMBER = -128
 
 
-def findlinestarts(code, dup_lines=False):
+def findlinestarts(code, dup_lines=False, signed_line_delta=True):
     """Find the offsets in a byte code which are start of lines in the source.
 
     Generate pairs (offset, lineno) as described in Python/compile.c.
+
+    The line increments of a co_lnotab are signed bytes from Python 3.6 on
+    and unsigned bytes before that; pass signed_line_delta=False for the latter.
     """
 
     if hasattr(code, "co_lines"):
@@ -205,7 +208,7 @@ def findlinestarts(code, dup_lines=False):
                         return
                     offset += byte_incr
                     pass
-                if line_delta >= 0x80:
+                if signed_line_delta and line_delta >= 0x80:
                     # line_deltas is an array of 8-bit *signed* integers
                     line_delta -= 0x100
                 lineno += line_delta
@@ -213,6 +216,11 @@ def findlinestarts(code, dup_lines=False):
                 yield offset, lineno
 
     return
+
+
+def findlinestarts_unsigned(code, dup_lines=False):
+    """findlinestarts() for bytecode before Python 3.6: co_lnotab line increments are unsigned."""
+    return findlinestarts(code, dup_lines=dup_lines, signed_line_delta=False)
 
 
 def instruction_size(op, opc):
